@@ -75,17 +75,17 @@ def handleO (ws : List String) : Option String :=
     let o ← Spec.Owner.ofPath? o
     let s ← Spec.lookup Spec.owners o f
     if o = .global ∧ f = "forin" then
-      pure (reply (joinKeys ("console" :: userGlobals cfg)) (joinKeys (userGlobals cfg)) (Model.devOwn o f))
-    else pure (reply (orAbsent (Spec.lookup Model.ownerFacts o f)) s (Model.devOwn o f))
+      pure (reply (joinKeys (userGlobals cfg)) (joinKeys (userGlobals cfg)) "-")
+    else pure (reply (orAbsent (Spec.lookup Model.ownerFacts o f)) s "-")
   | ["extra", cfg, o, p] => do
     guard (cfgs.contains cfg)
     let o ← Spec.Owner.ofPath? o
     guard (Spec.lookup Spec.table o p).isNone
-    pure (reply (if Model.devExtra o p = "-" then Spec.extraTok else "enum") Spec.extraTok (Model.devExtra o p))
+    pure (reply Spec.extraTok Spec.extraTok "-")
   | ["forin", cfg, k] => do
     guard (cfgs.contains cfg)
     let s ← Spec.assoc k Spec.forIn
-    pure (reply (orAbsent (Spec.assoc k Model.forIn)) s (Model.devForIn k))
+    pure (reply (orAbsent (Spec.assoc k Model.forIn)) s "-")
   | ["link", cfg, k] => do
     guard (cfgs.contains cfg)
     let s ← Spec.assoc k Spec.links
